@@ -197,7 +197,7 @@ fn enumerate(rep: &mut Report, n: u32) {
 pub fn plan(tier: Tier) -> Plan {
     let n = tier.pick(7, 9);
     Plan {
-        campaigns: vec![Box::new(Sequences)],
+        campaigns: vec![Box::new(crate::fuzzdec::FuzzReplay("fuzz_commitlog", "commitlog")), Box::new(Sequences)],
         enumerators: vec![Box::new(move |rep| enumerate(rep, n))],
         rule: "A case is a CommitLog configuration (max_segment_size in {1024,1500,4096}, max_mem_segments in 1..=5) and a sequence of up to 400 operations: appends of 1-64 B, 400-1100 B, 1025-6000 B or of exactly the size that fills the newest segment to max_segment_size+delta; reads through a cursor drawn from the pool of cursors the log issued so far (every next_offset(), every append() return value, every entry tag seen in a read, every Position.end of an earlier read; the sub-pool - all / most recent / continuations / tags / tails / still-retained / end-of-segment cursors - and the element are part of the case) with len in {0,1,2,3,10,100,10^6,u64::MAX}; reads through fabricated cursors (arbitrary u64, u64::MAX-d, live head/tail +-d, mixed components of issued cursors; no-panic clause only). After every append a full scan from (0,0) observes the retained suffix and checks the retention clauses. A case is non-trivial when it contains a read through a cursor that denotes an already discarded entry (after at least one eviction) or a read that crosses a segment boundary (returned tags carry two segment numbers, or the first returned tag is in another segment than the cursor). Shape = (max_mem_segments, eviction-count bucket, cursor classes and len classes of the non-trivial reads). Additionally every op sequence up to a length bound over a six-letter alphabet is enumerated for limits 1 and 2.".into(),
         assumptions: vec![
